@@ -189,6 +189,25 @@ pub fn adts<'tcx>(tcx: TyCtxt<'tcx>) -> Vec<J> {
         let did = item.owner_id.to_def_id();
         let def = tcx.adt_def(did);
         let repr = def.repr();
+        // attributes are read from the HIR nodes of the variants / fields themselves
+        let mut vattr_map: std::collections::HashMap<rustc_hir::def_id::LocalDefId, J> = std::collections::HashMap::new();
+        let mut fattr_map: std::collections::HashMap<rustc_hir::def_id::LocalDefId, J> = std::collections::HashMap::new();
+        match &item.kind {
+            ItemKind::Enum(_, _, edef) => {
+                for hv in edef.variants.iter() {
+                    vattr_map.insert(hv.def_id, codec_attrs(tcx, hv.hir_id));
+                    for hf in hv.data.fields().iter() {
+                        fattr_map.insert(hf.def_id, codec_attrs(tcx, hf.hir_id));
+                    }
+                }
+            },
+            ItemKind::Struct(_, _, vd) | ItemKind::Union(_, _, vd) => {
+                for hf in vd.fields().iter() {
+                    fattr_map.insert(hf.def_id, codec_attrs(tcx, hf.hir_id));
+                }
+            },
+            _ => {},
+        }
         let mut variants = Vec::new();
         for (vidx, v) in def.variants().iter_enumerated() {
             let discr = if def.is_enum() {
@@ -198,21 +217,17 @@ pub fn adts<'tcx>(tcx: TyCtxt<'tcx>) -> Vec<J> {
                 J::Null
             };
             let explicit = matches!(v.discr, ty::VariantDiscr::Explicit(_));
-            let vattrs = if def.is_enum() {
-                match v.def_id.as_local() {
-                    Some(l) => codec_attrs(tcx, tcx.local_def_id_to_hir_id(l)),
-                    None => J::Arr(vec![]),
-                }
-            } else {
-                J::Arr(vec![])
+            let vattrs = match v.def_id.as_local().and_then(|l| vattr_map.get(&l)) {
+                Some(j) => j.clone(),
+                None => J::Arr(vec![]),
             };
             let fs: Vec<J> = v
                 .fields
                 .iter()
                 .map(|f| {
                     let t = tcx.type_of(f.did).instantiate_identity().skip_norm_wip();
-                    let attrs = match f.did.as_local() {
-                        Some(l) => codec_attrs(tcx, tcx.local_def_id_to_hir_id(l)),
+                    let attrs = match f.did.as_local().and_then(|l| fattr_map.get(&l)) {
+                        Some(j) => j.clone(),
                         None => J::Arr(vec![]),
                     };
                     obj! {
